@@ -8,13 +8,14 @@ open Mhd.Gen.Tmo
 
 /-- the part of a connection record the timeout logic reads or reports -/
 def Core (c c' : Conn) : Prop :=
-  c'.la = c.la ∧ c'.tmo = c.tmo ∧ c'.suspended = c.suspended ∧ c'.closed = c.closed ∧ c'.aware = c.aware
+  c'.la = c.la ∧ c'.tmo = c.tmo ∧ c'.suspended = c.suspended ∧ c'.closed = c.closed ∧ c'.aware = c.aware ∧
+  c'.replying = c.replying
 
 /-- connection `i` is still live and its core record is untouched -/
 def Keep (i : Id) (d d' : Daemon) : Prop :=
   d'.now = d.now ∧ d'.back = d.back ∧ d'.cfg = d.cfg ∧ (i ∈ d.conns → i ∈ d'.conns) ∧ Core (d.c i) (d'.c i)
 
-theorem Core.refl (c : Conn) : Core c c := ⟨rfl, rfl, rfl, rfl, rfl⟩
+theorem Core.refl (c : Conn) : Core c c := ⟨rfl, rfl, rfl, rfl, rfl, rfl⟩
 
 theorem Keep.refl (i : Id) (d : Daemon) : Keep i d d := ⟨rfl, rfl, rfl, fun h => h, Core.refl _⟩
 
@@ -121,7 +122,7 @@ theorem roundEpoll_complete {v : Variant} (hv : Fixed v) {d : Daemon} (h : Inv d
   have k3 : Keep i d d3 := Keep.trans k2 (keep_processNew v h2 i (k2.2.2.2.1 hi))
   obtain ⟨n1, n0, n2, n3, n4⟩ := k3
   have hc3 : (d3.c i).closed = false := by rw [n4.2.2.2.1]; exact hc
-  have haw : (d3.c i).aware = (d.c i).aware := n4.2.2.2.2
+  have haw : (d3.c i).aware = (d.c i).aware := n4.2.2.2.2.1
   have ht3 : checkTimedOut d3.now (d3.c i) = true := by
     rw [n1]; unfold checkTimedOut at ht ⊢; rw [n4.1, n4.2.1, n4.2.2.1]; exact ht
   have hi3 : i ∈ d3.conns := n3 hi
@@ -146,7 +147,7 @@ theorem roundEpoll_complete {v : Variant} (hv : Fixed v) {d : Daemon} (h : Inv d
       mem_normal_of_conns h4 (m3 hi3) (by rw [m4.2.1, m2]; exact hm)
     have := scanNormal_complete h4 (by rw [m1, n1]; exact hnow) (by rw [m0, n0]; exact hback) i hin (by rw [m4.2.2.2.1]; exact hc3)
       (by rw [m1]; unfold checkTimedOut at ht3 ⊢; rw [m4.1, m4.2.1, m4.2.2.1]; exact ht3)
-    rw [m4.2.2.2.2, haw] at this
+    rw [m4.2.2.2.2.1, haw] at this
     exact hev _ (Or.inr this)
   · have him : i ∈ d3.manual := mem_manual_of_conns h3 hi3 hm
     have := scanManual_complete d3.manual.reverse d3 i (nodup_reverse' h3.ndManual) (List.mem_reverse.2 him) hc3 ht3
